@@ -366,6 +366,7 @@ pub fn drive<P: PT>(seed: u64, runs: usize, events: usize, prof: &Profile, out: 
         total += 1;
         let mut drifted = false;
         for i in 0..events {
+            crate::model::watch_end();
             if drifted {
                 break;
             }
